@@ -23,7 +23,9 @@ def sample_base(which):
 
 
 # the 41 characters an AKAI name can hold, each at least once (no leading / trailing blank: the printed form is stripped)
-NAMES41 = ["0123456789 A", "BCDEFGHIJKLM", "NOPQRSTUVWXY", "Z#+-. A+B-C#", "+", "-", "A-B+C", "-+-+"]
+NAMES41 = ["0123456789 A", "BCDEFGHIJKLM", "NOPQRSTUVWXY", "Z#+-. A+B-C#", "+", "-", "A-B+C", "-+-+",
+           # every character once in LAST position of a short name (the code of '0' is 0, that of the blank 10)
+           "KICK 10", "TOM 0", "0", "00", "A1", "B9", "C#", "D+", "E-", "F.", "GZ"]
 
 
 def sample_image(h):
